@@ -149,7 +149,7 @@ func (c06) Cases(tier string, seed uint64) []fw.Case {
 	// (3) random texts, corpus, mutated corpus
 	nSoup, nChars, nMut := 30000, 20000, 6000
 	if thorough {
-		nSoup, nChars, nMut = 600000, 300000, 100000
+		nSoup, nChars, nMut = 1500000, 800000, 250000
 	}
 	allTags := func() []string {
 		var out []string
@@ -343,16 +343,13 @@ func (c06) Run(c fw.Case) fw.Result {
 			}
 			cover["family:"+n] = true
 		}
-		if sample == nil && len(v.Run.Toks) >= 2 && len(v.Fails) == 0 && len(it.Text) < 200 {
+		if sample == nil && len(v.Run.Toks) >= 2 && len(v.Fails) == 0 && len(it.Text) < 60 {
 			sample = map[string]any{"gen": p.Gen, "text": it.Text, "tokens": renderToks(v.Run.Toks), "ends": map[bool]string{true: "error", false: "EOF"}[v.Run.Err != nil]}
 		}
 		for _, f := range v.Fails {
 			obs["discrepancies"]++
-			if failSigs[f.Sig] && len(fails) >= 3 {
-				continue // one witness per signature and case is enough once a few are recorded
-			}
-			if len(fails) >= 12 {
-				continue
+			if failSigs[f.Sig] || len(fails) >= 4 {
+				continue // one witness per signature, at most four signatures per case (all are counted in obs)
 			}
 			failSigs[f.Sig] = true
 			fails = append(fails, fw.SubViolation{
